@@ -7,11 +7,16 @@
    x = the decision vector (length n); in01 x = every variable in [0,1] (the declared box of ZDT1-4,6 and DTLZ).
    The generated functions take nobjs and nvars as Python ints (Z).
 
-   For each class:  *_gen_eq_ref  generated objectives = published formula;
-                    *_out_length  exactly nobjs objectives;
+   For each class:  *_gen_eq_ref  generated objectives (CF: also the constraint value) = published formula;
+                    *_out_length  exactly nobjs objectives (CF: and nconstrs constraints);
                     *_defined     no Python exception is raised on the translated path (index, division, sqrt,
                                   pow domain, length agreement of objective stores);
-                    lower bounds  the published front inequality of the property statement. *)
+                    lower bounds  the published front inequality of the property statement.
+   PROVED HERE:  ZDT1-4,6 (all four kinds), DTLZ1-4,7 (all four kinds + identities + sampler construction), UF1-4,7 (all four kinds),
+                 UF5, UF6, CF1, CF3 (gen_eq_ref, out_length), WFG4/5/7/8 full lower bound on the translated pipelines, the WFG4-9 shape
+                 stage (gen_eq_ref, out_length, identity), range lemmas and exception-freedom of the scalar WFG transformations.
+   PARTIAL:      WFG6/WFG9 lower bound, with the missing lemma r_nonsep_full_range as an explicit premise.
+   ORACLE ONLY:  UF8-13, CF2, CF4-10, ZDT5, the WFG1-3 classes, gen_eq_ref of whole WFG pipelines, *_defined of UF5-10/CF/WFG pipelines. *)
 From Coq Require Import Reals List ZArith.
 Import ListNotations.
 From PV Require Import Base.RList Gen.Problems Model.ProblemsRef Proofs.ProblemsProofs Proofs.ProblemsDTLZ Proofs.ProblemsUF Proofs.ProblemsWFG Proofs.ProblemsWFGT Proofs.ProblemsWFGP.
@@ -85,9 +90,10 @@ Proof. exact dtlz2_gen_eq_ref. Qed.
 Theorem c18_dtlz3_gen_eq_ref : forall (M n : nat) x, (1 <= M)%nat -> (M - 1 <= n)%nat -> length x = n ->
   DTLZ3_eval (Z.of_nat M) (Z.of_nat n) x = dtlz3_ref M x.
 Proof. exact dtlz3_gen_eq_ref. Qed.
-(* DTLZ4 with alpha at its constructor default 100 *)
-Theorem c18_dtlz4_gen_eq_ref : forall (M n : nat) x, (1 <= M)%nat -> (M - 1 <= n)%nat -> length x = n ->
-  DTLZ4_eval (Z.of_nat M) (Z.of_nat n) x = dtlz4_ref M x.
+(* DTLZ4: the constructor parameter alpha is a parameter of the generated function; math.pow(x, alpha) is read as the real power
+   py_rpow (exp(alpha ln x) for x > 0, 0^alpha = 0), so the theorems hold for EVERY real alpha (exception-freedom: alpha >= 0) *)
+Theorem c18_dtlz4_gen_eq_ref : forall (M n : nat) x, (1 <= M)%nat -> (M - 1 <= n)%nat -> length x = n -> forall alpha,
+  DTLZ4_eval (Z.of_nat M) (Z.of_nat n) alpha x = dtlz4_ref M alpha x.
 Proof. exact dtlz4_gen_eq_ref. Qed.
 
 Theorem c18_dtlz1_out_length : forall (M n : nat) x, (1 <= M)%nat -> (M - 1 <= n)%nat -> length x = n ->
@@ -99,8 +105,8 @@ Proof. exact dtlz2_out_length. Qed.
 Theorem c18_dtlz3_out_length : forall (M n : nat) x, (1 <= M)%nat -> (M - 1 <= n)%nat -> length x = n ->
   length (DTLZ3_eval (Z.of_nat M) (Z.of_nat n) x) = M.
 Proof. exact dtlz3_out_length. Qed.
-Theorem c18_dtlz4_out_length : forall (M n : nat) x, (1 <= M)%nat -> (M - 1 <= n)%nat -> length x = n ->
-  length (DTLZ4_eval (Z.of_nat M) (Z.of_nat n) x) = M.
+Theorem c18_dtlz4_out_length : forall (M n : nat) x, (1 <= M)%nat -> (M - 1 <= n)%nat -> length x = n -> forall alpha,
+  length (DTLZ4_eval (Z.of_nat M) (Z.of_nat n) alpha x) = M.
 Proof. exact dtlz4_out_length. Qed.
 
 (* DTLZ1: sum f = (1 + g)/2 (telescoping product) and g >= 0, hence sum f >= 1/2 *)
@@ -118,8 +124,8 @@ Proof. exact dtlz2_sumsq_identity. Qed.
 Theorem c18_dtlz3_sumsq_identity : forall (M n : nat) x, (1 <= M)%nat -> (M - 1 <= n)%nat -> length x = n ->
   sumsq_of (DTLZ3_eval (Z.of_nat M) (Z.of_nat n) x) = (1 + dtlz_g13 x M) ^ 2.
 Proof. exact dtlz3_sumsq_identity. Qed.
-Theorem c18_dtlz4_sumsq_identity : forall (M n : nat) x, (1 <= M)%nat -> (M - 1 <= n)%nat -> length x = n ->
-  sumsq_of (DTLZ4_eval (Z.of_nat M) (Z.of_nat n) x) = (1 + dtlz_g24 x M) ^ 2.
+Theorem c18_dtlz4_sumsq_identity : forall (M n : nat) x, (1 <= M)%nat -> (M - 1 <= n)%nat -> length x = n -> forall alpha,
+  sumsq_of (DTLZ4_eval (Z.of_nat M) (Z.of_nat n) alpha x) = (1 + dtlz_g24 x M) ^ 2.
 Proof. exact dtlz4_sumsq_identity. Qed.
 Theorem c18_dtlz2_lower : forall (M n : nat) x, (1 <= M)%nat -> (M - 1 <= n)%nat -> length x = n ->
   1 <= sumsq_of (DTLZ2_eval (Z.of_nat M) (Z.of_nat n) x).
@@ -127,8 +133,8 @@ Proof. exact dtlz2_lower. Qed.
 Theorem c18_dtlz3_lower : forall (M n : nat) x, (1 <= M)%nat -> (M - 1 <= n)%nat -> length x = n ->
   1 <= sumsq_of (DTLZ3_eval (Z.of_nat M) (Z.of_nat n) x).
 Proof. exact dtlz3_lower. Qed.
-Theorem c18_dtlz4_lower : forall (M n : nat) x, (1 <= M)%nat -> (M - 1 <= n)%nat -> length x = n ->
-  1 <= sumsq_of (DTLZ4_eval (Z.of_nat M) (Z.of_nat n) x).
+Theorem c18_dtlz4_lower : forall (M n : nat) x, (1 <= M)%nat -> (M - 1 <= n)%nat -> length x = n -> forall alpha,
+  1 <= sumsq_of (DTLZ4_eval (Z.of_nat M) (Z.of_nat n) alpha x).
 Proof. exact dtlz4_lower. Qed.
 
 (* the samplers' construction (distance variables = 1/2) gives g = 0: the front equation holds with equality *)
@@ -141,8 +147,8 @@ Proof. exact dtlz2_sampler_on_front. Qed.
 Theorem c18_dtlz3_sampler_on_front : forall (M n : nat) x, (1 <= M)%nat -> (M - 1 <= n)%nat -> length x = n -> tail_at_half M x ->
   sumsq_of (DTLZ3_eval (Z.of_nat M) (Z.of_nat n) x) = 1.
 Proof. exact dtlz3_sampler_on_front. Qed.
-Theorem c18_dtlz4_sampler_on_front : forall (M n : nat) x, (1 <= M)%nat -> (M - 1 <= n)%nat -> length x = n -> tail_at_half M x ->
-  sumsq_of (DTLZ4_eval (Z.of_nat M) (Z.of_nat n) x) = 1.
+Theorem c18_dtlz4_sampler_on_front : forall (M n : nat) x, (1 <= M)%nat -> (M - 1 <= n)%nat -> length x = n -> forall alpha, tail_at_half M x ->
+  sumsq_of (DTLZ4_eval (Z.of_nat M) (Z.of_nat n) alpha x) = 1.
 Proof. exact dtlz4_sampler_on_front. Qed.
 
 Theorem c18_dtlz1_defined : forall (M n : nat) x, (1 <= M)%nat -> (M - 1 <= n)%nat -> length x = n -> DTLZ1_defined (Z.of_nat M) (Z.of_nat n) x.
@@ -151,7 +157,8 @@ Theorem c18_dtlz2_defined : forall (M n : nat) x, (1 <= M)%nat -> (M - 1 <= n)%n
 Proof. exact dtlz2_defined. Qed.
 Theorem c18_dtlz3_defined : forall (M n : nat) x, (1 <= M)%nat -> (M - 1 <= n)%nat -> length x = n -> DTLZ3_defined (Z.of_nat M) (Z.of_nat n) x.
 Proof. exact dtlz3_defined. Qed.
-Theorem c18_dtlz4_defined : forall (M n : nat) x, (1 <= M)%nat -> (M - 1 <= n)%nat -> length x = n -> DTLZ4_defined (Z.of_nat M) (Z.of_nat n) x.
+Theorem c18_dtlz4_defined : forall (M n : nat) x, (1 <= M)%nat -> (M - 1 <= n)%nat -> length x = n -> forall alpha, 0 <= alpha -> in01 x ->
+  DTLZ4_defined (Z.of_nat M) (Z.of_nat n) alpha x.
 Proof. exact dtlz4_defined. Qed.
 
 (* ------------------------------------------------------------------ DTLZ7: every M >= 1 and n >= M (constructor: n = M + 19) *)
@@ -297,3 +304,11 @@ Proof. exact cf1_out_length. Qed.
 Theorem c18_cf3_out_length : forall (n : nat) x, (3 <= n)%nat -> length x = n ->
   length (CF3_eval 2 (Z.of_nat n) x) = 2%nat /\ length (CF3_constr_eval 2 (Z.of_nat n) x) = 1%nat.
 Proof. exact cf3_out_length. Qed.
+
+(* the scalar WFG transformation functions with the constants used by WFG1-9 raise no Python exception on [0,1]
+   (no division by zero, pow inside its domain).  The list-level *_defined predicates of the pipelines (index ranges of
+   _subvector/_r_sum, non-empty groups) are generated but NOT proved: the oracle covers exception-freedom of the WFG classes. *)
+Theorem c18_wfg_scalar_defined : forall y u, 0 <= y <= 1 -> 0 <= u <= 1 ->
+  fn_s_linear_defined y (7 / 20) /\ (forall A B, 0 <= B -> fn_s_multi_defined y A B (7 / 20)) /\
+  fn_s_decept_defined y (7 / 20) (1 / 1000) (1 / 20) /\ fn_b_param_defined y u (49 / 50 / (2499 / 50)) (1 / 50) 50.
+Proof. exact wfg_scalar_defined. Qed.
